@@ -16,13 +16,14 @@ from lxml import etree
 
 PROP = "C06"
 HEADER = ("Require Import Codec Typed TypedChk. From Coq Require Import List ZArith NArith Bool. Import ListNotations.\n"
-          "Open Scope N_scope.\nDefinition chk := chk06.\n")
+          "Open Scope N_scope.\nDefinition chk := chk06all.\n")
 LAYER = {1: "value: the value read back is not an equal value of the corresponding type",
          2: "lexical: the attribute written is outside the ODF lexical space of its value type",
          6: "overwrite: the attribute set left by a write on an occupied carrier is not the one the same write leaves on a fresh carrier (something of the previous value survives)",
          3: "set: the attribute set written differs from the model's set from the same previous state",
          4: "get: the value read differs from the model's reading of the same attributes",
-         5: "persistence: the stored attributes changed through re-parse or save / reload"}
+         5: "persistence: the stored attributes changed through re-parse or save / reload",
+         9: "neighbours: writing one cell of a repeated run changed another logical cell (or the width)"}
 FIDELITY = 8
 MODEL_ERR = 7
 NS = dict(office="urn:oasis:names:tc:opendocument:xmlns:office:1.0", text="urn:oasis:names:tc:opendocument:xmlns:text:1.0",
@@ -78,9 +79,7 @@ def abs_elem(node, meta=False):
 def c_dt(d):
     off = d.utcoffset()
     if off is not None:
-        if off.microseconds:
-            return None
-        off = off.days * 86400 + off.seconds
+        off = off // US                      # microseconds
     return "(DT %d %d %d %d %d %d %d %s)" % (d.year, d.month, d.day, d.hour, d.minute, d.second, d.microsecond, copt(off, cz))
 
 
@@ -120,7 +119,7 @@ def vclass(v):
         return "str" + ("-empty" if v == "" else "-ws" if v != v.strip() or "\n" in v or "\t" in v else "")
     if isinstance(v, datetime):
         off = v.utcoffset()
-        return "datetime" + ("" if off is None else "-tz" if off.seconds % 60 == 0 else "-tz-seconds") + ("-micro" if v.microsecond else "")
+        return "datetime" + ("" if off is None else "-tz" if off.seconds % 60 == 0 and not off.microseconds else "-tz-seconds") + ("-micro" if v.microsecond else "")
     if isinstance(v, date): return "date"
     if isinstance(v, timedelta): return "timedelta" + ("-subsecond" if v.microseconds else "") + ("-neg" if v < timedelta(0) else "")
     return "other"
@@ -572,6 +571,126 @@ def drive_histories(O, hist, meta_hist, with_docs=True):
     return res
 
 
+# ---------------------------------------------------------------- arguments (cell_type / currency / text / formula), typed reads, repeated runs
+def c_tres(ok, r):
+    if not ok:
+        return "(@Err (pyval * option (list N)))"
+    if not (isinstance(r, tuple) and len(r) == 2):
+        return "(Ok (VOther, @None (list N)))"
+    return "(Ok (%s, %s))" % (c_val(r[0]), copt(r[1], cstr) if r[1] is None or isinstance(r[1], str) else "(Some [0])")
+
+
+def drive_typed(O, tier, rng):
+    """K2 cases: set_value_and_type with value_type / currency / text / formula arguments through Cell, Row, Table, VarSet;
+    reads through get_value(get_type=True): direct and after re-parse"""
+    Cell, Row, Table, Element = O.Cell, O.Row, O.Table, O.Element
+    from odfdo.variable import VarSet
+    CAR, cell_in = carriers(O)
+    nums = [0, 1, -7, 42, 10 ** 20, 0.5, -0.25, 1e-7, 1e21, 12.5, Decimal("2.50"), Decimal("-0.001"), Decimal("1E+3"), Decimal("15")]
+    reps = history_values()
+    combos = []
+    for v in nums:
+        for vt, cur in [("percentage", None), ("currency", "EUR"), ("currency", None), ("currency", "US$"), ("float", None)]:
+            for text, fo in [(None, None), ("shown", None), (None, "of:=[.A1]*2")]:
+                combos.append((v, vt, cur, text, fo))
+    for v in reps:
+        for text, fo in [(None, None), ("shown text", None), (None, "of:=1+1"), ("t", "of:=SUM([.A1:.A2])")]:
+            combos.append((v, None, None, text, fo))
+    for v, vt in [("x", "float"), (True, "string"), (5, "boolean"), (timedelta(seconds=5), "float"), ("2024-01-01", "date"), (3, "date"), (1.5, "time"), (None, "float")]:
+        combos.append((v, vt, None, None, None))
+    out = []
+    for (v, vt, cur, text, fo) in combos:
+        builders = {
+            "Cell(v, cell_type, currency, text, formula)": (lambda: Cell(v, text=text, cell_type=vt, currency=cur, formula=fo), lambda c: node_of(c), lambda c: c.get_value(get_type=True)),
+        }
+        if text is None and fo is None:
+            def rowb():
+                r = Row(); r.set_value(1, v, cell_type=vt, currency=cur); return r
+            def tabb():
+                t = Table("t"); t.set_value((1, 2), v, cell_type=vt, currency=cur); return t
+            builders["Row.set_value(cell_type, currency)"] = (rowb, lambda r: cell_in(node_of(r), 1), lambda r: r.get_value(1, get_type=True))
+            builders["Table.set_value(cell_type, currency)"] = (tabb, lambda t: cell_in(node_of(t), 1, 2), lambda t: t.get_value((1, 2), get_type=True))
+            if cur is None:
+                builders["VarSet(value_type)"] = (lambda: VarSet(name="n", value=v, value_type=vt), lambda e: node_of(e), lambda e: e.get_value(get_type=True))
+        for name, (build, nodef, rd) in builders.items():
+            payload = dict(carrier=name, typed=dict(value=repr(v), cell_type=vt, currency=cur, text=text, formula=fo))
+            key = "typed/%s-as-%s%s%s" % (vclass(v), vt or "default", "-currency" if cur else "", "-text" if text else "-formula" if fo else "")
+            args = "%s %s %s" % (copt(vt, cstr), copt(cur, cstr), copt(fo if name.startswith("Cell") else None, cstr))
+            ok, obj = limited(build)
+            if not ok:
+                out.append((name, payload, "(K2 %s %s (@Err elem) (@nil tread))" % (args, c_val(v)), key)); continue
+            okn, node = limited(lambda: nodef(obj))
+            w = abs_elem(node if okn else None)
+            reads = []
+            okr, r = limited(lambda: rd(obj)); reads.append("(%s, %s)" % (w, c_tres(okr, r)))
+            ok2, obj2 = limited(lambda: Element.from_tag(obj.serialize()))
+            if ok2:
+                okn2, node2 = limited(lambda: nodef(obj2)); okr, r = limited(lambda: rd(obj2))
+                reads.append("(%s, %s)" % (abs_elem(node2 if okn2 else None), c_tres(okr, r)))
+            out.append((name, payload, "(K2 %s %s (Ok %s) [%s])" % (args, c_val(v), w, "; ".join(reads)), key))
+    return out
+
+
+def expand_row(rownode):
+    cells = []
+    for c in rownode:
+        if c.tag != Q("table", "table-cell"):
+            continue
+        cells += [abs_elem(c)] * int(c.get(Q("table", "number-columns-repeated")) or 1)
+    return cells
+
+
+def expand_table(tnode, width):
+    grid = []
+    for r in tnode.iter(Q("table", "table-row")):
+        cells = expand_row(r)
+        cells += [EMPTY_E] * (width - len(cells))
+        for _ in range(int(r.get(Q("table", "number-rows-repeated")) or 1)):
+            grid += cells[:width]
+    return grid
+
+
+def drive_runs(O, tier, rng):
+    """K3 cases: Row.set_value / Table.set_value into repeated runs; the logical cells before and after are expanded by an lxml walk"""
+    Cell, Row, Table = O.Cell, O.Row, O.Table
+    vals = history_values()
+
+    def make_row():
+        r = Row()
+        r.append_cell(Cell("a", repeated=3)); r.append_cell(Cell(1)); r.append_cell(Cell(True, repeated=2)); r.append_cell(Cell(repeated=2)); r.append_cell(Cell(1.5))
+        return r                                             # width 9
+
+    def make_table():
+        t = Table("t")
+        for rep, base in [(2, "p"), (1, "q"), (3, "r")]:
+            r = Row(); r.append_cell(Cell(base, repeated=2)); r.append_cell(Cell(7)); r.append_cell(Cell(repeated=2)); r.append_cell(Cell(False))
+            r.repeated = rep
+            t.append_row(r)
+        return t                                             # 6 x 6 logical cells
+    out = []
+    xs = list(range(0, 12))
+    for x in xs:
+        for v in (vals if tier == "thorough" or x in (1, 4, 7, 10) else [vals[(x * 5) % len(vals)], "x"]):
+            r = make_row(); before = expand_row(node_of(r))
+            ok, _ = limited(lambda: r.set_value(x, v))
+            if not ok: continue
+            after = expand_row(node_of(r)); okr, got = limited(lambda: r.get_value(x))
+            payload = dict(carrier="Row.set_value into runs", runs=dict(x=x, value=repr(v)))
+            out.append(("Row.set_value into runs", payload, "(K3 %d%%nat [%s] [%s] %s %s)" % (x, "; ".join(before), "; ".join(after), c_val(v), c_res(okr, got)), "runs/Row-" + vclass(v)))
+    for y in range(6):
+        for x in range(6):
+            if tier != "thorough" and (x + y) % 2:
+                continue                                      # quick: a chequerboard of the 36 positions
+            for v in (vals if tier == "thorough" else [vals[(x + 3 * y) % len(vals)]]):
+                t = make_table(); before = expand_table(node_of(t), 6)
+                ok, _ = limited(lambda: t.set_value((x, y), v))
+                if not ok: continue
+                after = expand_table(node_of(t), 6); okr, got = limited(lambda: t.get_value((x, y)))
+                payload = dict(carrier="Table.set_value into runs", runs=dict(x=x, y=y, value=repr(v)))
+                out.append(("Table.set_value into runs", payload, "(K3 %d%%nat [%s] [%s] %s %s)" % (y * 6 + x, "; ".join(before), "; ".join(after), c_val(v), c_res(okr, got)), "runs/Table-" + vclass(v)))
+    return out
+
+
 def py_same(v, r):
     """direct Python oracle of 'equal value of the corresponding type' (DESIGN.md C06)"""
     if v is None: return r is None
@@ -622,7 +741,9 @@ def run(tier, seed, replay=None):
     hist, meta_hist, vals, only = [], [], [], None
     if replay:
         rp = json.load(open(replay))["case"]
-        if "steps" in rp:
+        if "typed" in rp or "runs" in rp:
+            pass
+        elif "steps" in rp:
             if rp["carrier"] == "Meta":
                 meta_hist = [[ev(x) for _m, x in rp["steps"]]]
             else:
@@ -648,6 +769,14 @@ def run(tier, seed, replay=None):
     n_single = len(driven)
     for k in range(0, max(len(hist), 1), 400):
         driven += drive_histories(O, hist[k:k + 400], meta_hist if k == 0 else [])
+    driven = [(n, pl, "(K1 %s)" % c, k) for n, pl, c, k in driven]
+    n_k1 = len(driven)
+    if not replay:
+        driven += drive_typed(O, tier, rng)
+        driven += drive_runs(O, tier, rng)
+    elif "typed" in rp or "runs" in rp:
+        which = drive_typed(O, "thorough", rng) if "typed" in rp else drive_runs(O, "thorough", rng)
+        driven = [d for d in which if d[1] == rp]
     cases = [d[2] for d in driven]
     bad, errors = common.run_shards(HEADER, cases, "chk", "c06", shard=120)
     hard = {i: c for i, c in bad.items() if c not in (FIDELITY, MODEL_ERR)}
@@ -692,13 +821,15 @@ def run(tier, seed, replay=None):
                       "CPython repr(float) (a float is identified with its repr; float(repr(x)) == x) and decimal.Decimal's parser / printer, modelled by Typed.dec_of_text / str_of_dec and compared here on every numeric case",
                       "the abstraction of an element to its whole attribute set (value-type, boolean-value, value, date-value, string-value, time-value, currency, calcext:value-type, calcext:value, every other attribute | meta text) by an lxml walk",
                       "modelled in Typed.v: ElementTyped.set_value_and_type (also on an occupied element) / _get_typed_value, Cell.value setter and getter, Meta.set_user_defined_metadata (also on an existing name) / _get_meta_value_full; Codec.v for the codecs"],
-        evaluations=len(cases), distinct_nontrivial=distinct, reads_checked=reads, single_write_cases=n_single, overwrite_step_cases=len(cases) - n_single,
+        evaluations=len(cases), distinct_nontrivial=distinct, reads_checked=reads, single_write_cases=n_single, overwrite_step_cases=n_k1 - n_single, argument_and_run_cases=len(cases) - n_k1,
         rule="(a) boundary values of every type (huge / negative ints, floats with exponents, Decimals with trailing zeros and exponents, empty / white-space / XML-special / non-BMP strings, "
              "years 1 and 9999, offsets up to +-23:59, microseconds, multi-day, negative and sub-second durations, values outside the domain) plus random values, each through 11 carriers "
              "(Cell(v), Cell.set_value, Cell.value=, Row.set_value, Table.set_value, VarSet(v), VarSet.set_value, UserFieldDecl(v), UserFieldDecl.set_value, UserDefined(v), Meta) "
              "and three legs (direct, re-parse, document save/reload); (b) overwrite histories: every ordered pair of one representative per value type (and None, '') written one after the other on the same "
              "cell (set_value, .value=, set_value_and_type, mixed), the same cell of a row / table, the same variable, user field, user-defined field and metadata name, from fresh, currency, percentage and formula cells, "
              "plus random 2-3 step histories; one case per overwriting step, checked from the implementation's own previous state; direct read after every step, re-parse and save/reload after the last. "
+             "(c) cell_type / currency / text / formula arguments (numbers as percentage, currency with and without a currency name, float; every representative with text and formula; ill-fitting types) through Cell, Row.set_value, "
+             "Table.set_value, VarSet, read with get_value(get_type=True) directly and after re-parse; (d) Row.set_value / Table.set_value into repeated runs of cells and of rows, every logical cell expanded before and after. "
              "distinct = distinct (carrier, value or history); non-trivial = not the single write of None",
         samples=[dict(carrier=n, case=payload, coq=c) for n, payload, c, key in pick],
         input_classes=khist, carriers=chist, corpus_cases=len(corpus),
